@@ -17,7 +17,7 @@ UnitOk(mu, ou) == mu.s = "??" \/ (mu.dim = ou.dim /\ NumOk(mu.sc, ou.sc) /\ NumO
 \* from the unit into the numbers; which atoms cancel depends on the spelling, so T compares numbers x scale there
 PhysSeqOk(mn, msc, on, osc) ==
   Len(mn) = Len(on) /\ \A j \in DOMAIN mn : LET a == NMul(mn[j], msc) b == NMul(on[j], osc) IN IsOpq(a) \/ IsOpq(b) \/ a = b
-Scaled(c) == c.f \in {"mul", "div"} \/ c.op = "dot"
+Scaled(c) == c.f \in {"mul", "div", "rmul", "rdiv"} \/ c.op = "dot"
 ObjOk(c, m, o) ==
   IF Scaled(c) THEN m.u.s = "??" \/ (m.u.dim = o.u.dim /\ NumOk(m.u.off, o.u.off) /\ PhysSeqOk(m.n, m.u.sc, o.n, o.u.sc))
   ELSE SeqOk(m.n, o.n) /\ UnitOk(m.u, o.u)
